@@ -106,12 +106,21 @@ func init() {
 			if x.Sign() <= 0 {
 				x = big.NewInt(int64(g.R.between(1, 9)))
 			}
+			if (kind == 0 || kind == 3) && g.R.Intn(3) == 0 { // the same value written with trailing zeros (more digits than 3p)
+				z := g.R.between(1, 3*p+8)
+				x.Mul(x, new(big.Int).Exp(big.NewInt(10), big.NewInt(int64(z)), nil))
+				e -= z
+			}
 			d := finDec(neg, x, e)
+			al, cls := "", ""
+			if g.R.Intn(4) == 0 { // in place: the destination is the operand
+				al, cls = "dx", "/dx"
+			}
 			if kind == 3 || kind == 6 || kind >= 8 {
-				g.emit(mkA("cbrt", c, d, d, 0, "", fresh), "cbrt")
+				g.emit(mkA("cbrt", c, d, d, 0, al, fresh), "cbrt"+cls)
 			}
 			if kind != 3 {
-				g.emit(mkA("sqrt", c, absDec(d), d, 0, "", fresh), "sqrt")
+				g.emit(mkA("sqrt", c, absDec(d), d, 0, al, fresh), "sqrt"+cls)
 			}
 		}
 	}
